@@ -289,11 +289,13 @@ def wire_normalisation(repo: Repo):
     tp = repo.func("pdu_items", "SCP_SCU_RoleSelectionSubItem.to_primitive")
     consts = []
     for attr in ("scu_role", "scp_role"):
-        ifs = [i for i in walk_no_nested(fp) if isinstance(i, ast.If) and norm(i.test) == f"primitive.{attr} is not None"]
+        from .loader import oriented
+        ifs = [(i, oriented(i, f"primitive.{attr} is not None")) for i in walk_no_nested(fp) if isinstance(i, ast.If)]
+        ifs = [(i, o) for i, o in ifs if o is not None]
         if len(ifs) != 1:
             raise AnalysisError(f"SCP_SCU_RoleSelectionSubItem.from_primitive: {attr} shape changed")
-        t = [norm(s) for s in ifs[0].body]
-        f = [s for s in ifs[0].orelse if isinstance(s, ast.Assign) and norm(s.targets[0]) == f"self.{attr}"]
+        t = [norm(s) for s in ifs[0][1][0]]
+        f = [s for s in ifs[0][1][1] if isinstance(s, ast.Assign) and norm(s.targets[0]) == f"self.{attr}"]
         if t != [f"self.{attr} = int(primitive.{attr})"] or len(f) != 1 or not isinstance(f[0].value, ast.Constant):
             raise AnalysisError(f"SCP_SCU_RoleSelectionSubItem.from_primitive: {attr} branch bodies changed")
         consts.append(bool(f[0].value.value))
